@@ -193,6 +193,14 @@ func seqProfile0(prop, tier string) *SeqProfile {
 			},
 			Rule: "C20: every Log.Backup / klevdb.Backup call (fresh target, or repeated into the same target after publish-only steps) judged: no error, source answers unchanged, target passes Check, opens, scans to the abstract live sequence with the same NextOffset and answers the query sweep like the source.",
 		}
+	case "C18":
+		return &SeqProfile{Prop: prop, NRandom: 0, Module: "TraceNotifyFinal.tla", Cfg: "TraceNotifyFinal.cfg",
+			Design: []DesignRun{{Module: "MCNotify.tla", Cfg: "notify_q.cfg", Workers: 8, Timeout: 10 * time.Minute,
+				Note: "Notify.tla: NoLostWakeup, Caused, TokenMutex and liveness under weak fairness (3 waiters below/at/above, 2 setters, Close, 1 cancel)"}},
+			Extra: runNotify,
+			Rule: "C18: (i) TLC-generated schedules of Notify.tla (one shortest schedule per distinct model state, seeded stride in quick) are stepped through the real pkg/notify.Offset goroutine by goroutine via the notify.* pause points; at quiescence TLC judges which waiters returned with what and which are still blocked (TraceNotifyFinal); the step-by-step trace is validated against Notify.tla for drift only; (ii) free-running mixes of up to 8 waiters, setters, Close and cancels; (iii) phase scenarios on OpenBlocking: immediate returns below NextOffset / relative offsets equal Consume, waiters at and beyond NextOffset stay blocked, are woken by a passing Publish with Consume's result, cancel, Close, wait after Close.",
+			Assume: []string{"'stays blocked' is a bounded-time observation (15-40 ms); 'wakes' allows 5 s"},
+		}
 	case "C19":
 		return &SeqProfile{Prop: prop, NRandom: 0, Module: "TraceHandles.tla", Cfg: "TraceHandles.cfg",
 			Design: []DesignRun{{Module: "Handles.tla", Cfg: tierS(tier, "handles_q.cfg", "handles_t.cfg"), Workers: 4, Timeout: 5 * time.Minute,
